@@ -45,7 +45,7 @@ class C15(Prop):
         ctx = Context()
         rnd = random.Random(seed)
         n_eval = 0
-        top = 400 if tier != "thorough" else 100000
+        top = 400 if tier != "thorough" else 3000  # ~0.14 s per number (sympy logarithm in to_base)
         nums = list(range(0, top)) + [rnd.randrange(10**k) for k in range(5, 120, 9 if tier != "thorough" else 1)]
         for b in (list(range(2, 13)) + [16, 27, 100, 255, 256, 300] if tier != "thorough" else list(range(2, 301))):
             for k in range(1, 10 if tier != "thorough" else 130):
@@ -97,7 +97,7 @@ class C15(Prop):
 
     def bounded(self, W, tier, seed):
         w, n = self.codec_search(tier, seed)
-        return [dict(name="C15/bounded-element-codecs", what="elements.to_base / from_base on b^k-1, b^k, b^k+1 and a dense range; number, string and dictionary compression elements round-tripped through the real lexer / interpreter", bound="quick: bases 2..12,16,27,100,255,256,300, k <= 9, n < 400; thorough: bases 2..300, k <= 129, n < 10^5; strings of length <= 2 over [a-z ] exhaustively + random", evaluations=n, label="bounded", failures=[w] if w else [])]
+        return [dict(name="C15/bounded-element-codecs", what="elements.to_base / from_base on b^k-1, b^k, b^k+1 and a dense range; number, string and dictionary compression elements round-tripped through the real lexer / interpreter", bound="quick: bases 2..12,16,27,100,255,256,300, k <= 9, n < 400; thorough: bases 2..300, k <= 129, n < 3000; strings of length <= 2 over [a-z ] exhaustively + random", evaluations=n, label="bounded", failures=[w] if w else [])]
 
     def replay(self, W, report, ob):
         if report["key"].endswith("::tokenise"):
